@@ -136,6 +136,7 @@ type arun struct {
 	wild  bool // arbitrary floats: no order-independent reference
 	h     history
 	panic string // first panic of a logical thread (recovered): a violation, never a silent crash
+	twin  *arun  // -twin: a second adder of the same type alive at the same time; every operation is made on both (two objects are independent)
 }
 
 func (r *arun) val(v int64) string {
@@ -156,44 +157,53 @@ func (r *arun) body(tid int, th athread) func() {
 		for _, op := range th.ops {
 			vsched.Point()
 			cur = op.kind
-			switch op.kind {
-			case "add", "inc", "dec":
-				// towards the model and the monitors Inc / Dec ARE Add(+1) / Add(-1): same request line, same history record;
-				// only the call made on the real adder differs
-				clock++
-				o := &opRec{tid: tid, kind: "add", arg: op.id, inv: clock}
-				r.h.ops = append(r.h.ops, o)
-				vsched.Logf("inv %d add %s\n", tid, r.val(op.x))
-				switch op.kind {
-				case "inc":
-					r.a.Inc()
-				case "dec":
-					r.a.Dec()
-				default:
-					r.a.Add(op.x)
-				}
-				r.h.end(o, "unit")
-			case "sum":
-				o := r.h.begin(tid, "sum", -1)
-				s := r.a.Sum()
-				r.h.end(o, r.val(s))
-			case "store":
-				clock++
-				o := &opRec{tid: tid, kind: "store", inv: clock, x: op.x}
-				r.h.ops = append(r.h.ops, o)
-				vsched.Logf("inv %d store %s\n", tid, r.val(op.x))
-				r.a.Store(op.x)
-				r.h.end(o, "unit")
-			case "reset":
-				o := r.h.begin(tid, "reset", -1)
-				r.a.Reset()
-				r.h.end(o, "unit")
-			case "sar":
-				o := r.h.begin(tid, "sar", -1)
-				s := r.a.SumAndReset()
-				r.h.end(o, r.val(s))
+			r.do(tid, op)
+			if r.twin != nil {
+				vsched.Point()
+				cur = op.kind + " (second adder)"
+				r.twin.do(tid, op)
 			}
 		}
+	}
+}
+
+func (r *arun) do(tid int, op aop) {
+	switch op.kind {
+	case "add", "inc", "dec":
+		// towards the model and the monitors Inc / Dec ARE Add(+1) / Add(-1): same request line, same history record;
+		// only the call made on the real adder differs
+		clock++
+		o := &opRec{tid: tid, kind: "add", arg: op.id, inv: clock}
+		r.h.ops = append(r.h.ops, o)
+		vsched.Logf("inv %d add %s\n", tid, r.val(op.x))
+		switch op.kind {
+		case "inc":
+			r.a.Inc()
+		case "dec":
+			r.a.Dec()
+		default:
+			r.a.Add(op.x)
+		}
+		r.h.end(o, "unit")
+	case "sum":
+		o := r.h.begin(tid, "sum", -1)
+		s := r.a.Sum()
+		r.h.end(o, r.val(s))
+	case "store":
+		clock++
+		o := &opRec{tid: tid, kind: "store", inv: clock, x: op.x}
+		r.h.ops = append(r.h.ops, o)
+		vsched.Logf("inv %d store %s\n", tid, r.val(op.x))
+		r.a.Store(op.x)
+		r.h.end(o, "unit")
+	case "reset":
+		o := r.h.begin(tid, "reset", -1)
+		r.a.Reset()
+		r.h.end(o, "unit")
+	case "sar":
+		o := r.h.begin(tid, "sar", -1)
+		s := r.a.SumAndReset()
+		r.h.end(o, r.val(s))
 	}
 }
 
@@ -356,6 +366,7 @@ func runAdder(fs *flag.FlagSet, args []string) {
 	cf := addCommon(fs)
 	impl := fs.String("impl", "jdk", "jdk jdkf64 randomcell atomic atomicf64 mutex")
 	maxCells := fs.Int("maxcells", 0, "override maxCells (0 = library default)")
+	twin := fs.Bool("twin", false, "a second adder of the same type, alive at the same time and given the same operations (monitors only: no acceptor)")
 	fs.Parse(args)
 	cf.open()
 	defMax := adder.VerifMaxCells()
@@ -406,6 +417,10 @@ func runAdder(fs *flag.FlagSet, args []string) {
 		r := &arun{a: a, float: float}
 		ths, xs := genAdderProgram(rng, family, float, *impl == "mutex")
 		r.wild = lastWild
+		if *twin {
+			a2, _, _, _ := newAdder(*impl, via)
+			r.twin = &arun{a: a2, float: float, wild: lastWild}
+		}
 		alg := "int"
 		if float {
 			alg = "float"
@@ -468,6 +483,11 @@ func runAdder(fs *flag.FlagSet, args []string) {
 		}
 		if msg == "" {
 			msg = monitorAdder(r, ths, xs, *impl == "mutex")
+		}
+		if msg == "" && r.twin != nil {
+			if m2 := monitorAdder(r.twin, ths, xs, *impl == "mutex"); m2 != "" {
+				msg = m2 + " [the second of two adders of this type alive at the same time and given the same operations]"
+			}
 		}
 		if msg != "" {
 			monf(run, "FAIL %s", msg)
